@@ -362,33 +362,14 @@ func (h *harness) pipelineRound(ctx context.Context, round int) {
 	}
 	// Go: the harness executable itself is the Go binary of the image; pick
 	// two of its dependencies by scanning it first.
-	var goPkgs []*claircore.Package
-	if exeBytes != nil {
-		if l, err := mkLayer(ctx, map[string][]byte{"usr/local/bin/app": exeBytes}); err == nil {
-			goPkgs, _ = gobin.Detector{}.Scan(ctx, l)
-			l.Close()
-		}
-	}
 	var goVuln, goFixed *claircore.Package
-	for _, p := range goPkgs {
-		if p.NormalizedVersion.Kind != "semver" || p.NormalizedVersion.V[1] == 0 && p.NormalizedVersion.V[2] == 0 && p.NormalizedVersion.V[3] == 0 {
-			continue
-		}
-		if goVuln == nil {
-			goVuln = p
-		} else if goFixed == nil && p.Name != goVuln.Name {
-			goFixed = p
-		}
+	if exeBytes != nil {
+		goVuln, goFixed = goDeps(ctx, exeBytes)
 	}
 	if goVuln != nil && goFixed != nil {
 		goMod, goVer = goVuln.Name, goVuln.Version
 		_ = goVer
-		up := func(v [10]int32) string { return fmt.Sprintf("%d.%d.%d", v[1]+1, 0, 0) }
-		same := func(v [10]int32) string { return fmt.Sprintf("%d.%d.%d", v[1], v[2], v[3]) }
-		oadv["Go"] = []osvAdv{
-			{id: "ADV-go-vuln", ecosystem: "Go", name: goVuln.Name, purl: "pkg:golang/" + goVuln.Name, rangeType: "SEMVER", intro: "0", fixed: up(goVuln.NormalizedVersion.V)},
-			{id: "ADV-go-fixed", ecosystem: "Go", name: goFixed.Name, purl: "pkg:golang/" + goFixed.Name, rangeType: "SEMVER", intro: "0", fixed: same(goFixed.NormalizedVersion.V)},
-		}
+		oadv["Go"] = goAdvisories(goVuln, goFixed)
 	}
 	w.osvWorld(lines, oadv)
 	if m, err := osvRun(ctx, w); err != nil {
@@ -746,5 +727,38 @@ func (h *harness) sectionKnown() {
 				}
 			}
 		}
+	}
+}
+
+// goDeps scans a Go executable with the real gobin detector and picks two of
+// its dependencies that carry a proper semantic version.
+func goDeps(ctx context.Context, exe []byte) (a, b *claircore.Package) {
+	l, err := mkLayer(ctx, map[string][]byte{"usr/local/bin/app": exe})
+	if err != nil {
+		return nil, nil
+	}
+	defer l.Close()
+	pkgs, _ := gobin.Detector{}.Scan(ctx, l)
+	sort.Slice(pkgs, func(i, j int) bool { return pkgs[i].Name < pkgs[j].Name })
+	for _, p := range pkgs {
+		v := p.NormalizedVersion
+		if v.Kind != "semver" || (v.V[1] == 0 && v.V[2] == 0 && v.V[3] == 0) {
+			continue
+		}
+		if a == nil {
+			a = p
+		} else if b == nil && p.Name != a.Name {
+			b = p
+		}
+	}
+	return a, b
+}
+
+func goAdvisories(a, b *claircore.Package) []osvAdv {
+	up := func(v [10]int32) string { return fmt.Sprintf("%d.%d.%d", v[1]+1, 0, 0) }
+	same := func(v [10]int32) string { return fmt.Sprintf("%d.%d.%d", v[1], v[2], v[3]) }
+	return []osvAdv{
+		{id: "ADV-go-vuln", ecosystem: "Go", name: a.Name, purl: "pkg:golang/" + a.Name, rangeType: "SEMVER", intro: "0", fixed: up(a.NormalizedVersion.V)},
+		{id: "ADV-go-fixed", ecosystem: "Go", name: b.Name, purl: "pkg:golang/" + b.Name, rangeType: "SEMVER", intro: "0", fixed: same(b.NormalizedVersion.V)},
 	}
 }
